@@ -376,13 +376,15 @@ func (c *c15Checker) alignFragment(lines []string, source string) {
 			}
 		}
 	}
+	r2 := pkglint.VerifVaralign(r1.Lines, "describe"+c.sfx)
+	good := c.property(c15Opts{what: "align", settle: true, secondPass: c15SecondAlign(c.sfx)}, lines, r1.Lines, r1.Before, r2.Before, replay)
 	if !wf {
+		// (reported after the property was evaluated on the output: if the fixes then touched a
+		// non-blank byte, that is a second, found-input violation of this case)
 		c.viol("C15/correspondence/splitter-postcondition", fmt.Sprintf("VaralignSplitter broke its post-condition (space parts blank, no space after an empty value, parts recombine to the raw line) for %q", lines),
 			false, c15Size(lines), map[string]any{"kind": "align", "lines": c15hxs(lines), "nonl": c.sfx != "", "broken": "assumption wf: the splitter's space parts are blank and String() == raw"})
 		return
 	}
-	r2 := pkglint.VerifVaralign(r1.Lines, "describe"+c.sfx)
-	good := c.property(c15Opts{what: "align", settle: true, secondPass: c15SecondAlign(c.sfx)}, lines, r1.Lines, r1.Before, r2.Before, replay)
 	c.res.Count("align_fragments", 1)
 	c.res.Count("align_actions", len(r1.Actions))
 	for _, a := range r1.Actions {
